@@ -285,3 +285,10 @@ def c19_6(ctx, r):
     own = ctx.fn("AsyncCliCommand.is_complete", "C19.6")
     r.check(any(isinstance(c, ast.Call) and isinstance(c.func, ast.Attribute) and c.func.attr == "poll" and ctx.src(c.func.value) == "self._pipe" for c in iter_own(own.node)), "AsyncCliCommand.is_complete polls its own pipe",
             key_of(own, "poll"), own.loc(), "AsyncCliCommand.is_complete no longer reads the exit status with self._pipe.poll()")
+
+
+@rule(P, "C19.7", "T3", "a recorded row ends with a newline: the next result starts its own row (name, exit code and HPC id are not glued to a neighbour)", min_obligations=3)
+def c19_7(ctx, r):
+    from .c08 import rows_newline_terminated
+
+    rows_newline_terminated(ctx, r, "C19.7")
